@@ -407,6 +407,14 @@ def _check_shape(ctx, g, v, mode):
         ctx.check(syms[-1] in ".Oeu", "C06", "symbol-outside-alphabet", f"bcrypt salt {v!r}: last character has padding bits set", api=g.api)
 
 
+SLOW_SALT = ("sun_md5_crypt", "atlassian_pbkdf2_sha1")  # 4096 base rounds / fixed 10000 rounds: 5-30 ms per hash
+
+
+def _reps(cfg, g):
+    """sample size; hashers whose cheapest hash still costs tens of milliseconds get a small one (a fixed rule, not a measurement)"""
+    return min(cfg["reps"], 60) if getattr(g, "hname", "") in SLOW_SALT else cfg["reps"]
+
+
 def _run(cfg, ctx, src, g):
     mode = cfg["mode"]
     api = g.api
@@ -416,7 +424,7 @@ def _run(cfg, ctx, src, g):
     if mode != "stream":
         src.mode = mode
         ctx.fault("source_" + mode)
-        for _ in range(min(cfg["reps"], 100)):
+        for _ in range(min(_reps(cfg, g), 100)):
             v, rec = _one(ctx, src, g, "extreme source")
             _check_shape(ctx, g, v, mode)
         ctx.nontrivial = True
@@ -427,7 +435,7 @@ def _run(cfg, ctx, src, g):
     seen = {}  # value -> draws
     values = []
     bij = None
-    for i in range(cfg["reps"]):
+    for i in range(_reps(cfg, g)):
         v, rec = _one(ctx, src, g, "stream")
         _check_shape(ctx, g, v, "stream")
         key = tuple(_symbols(v))
